@@ -565,6 +565,14 @@ def with_pattrs(rng, func, p=0.5):
     return ret, name, "|".join(ps), bdesc
 
 
+def with_variadic(rng, func, p=0.25):
+    """`...` behind the last parameter — only for functions nothing refers to (a call of a variadic callee spells its signature: outside the fragment)"""
+    ret, name, pdesc, bdesc = func
+    if pdesc.endswith("...") or rng.random() >= p:
+        return func
+    return ret, name, "..." if pdesc == "-" else pdesc + "|...", bdesc
+
+
 def with_tail(rng, func, p=0.5, addrspace_ok=True):
     """clauses behind the parameter list: unnamed_addr / local_unnamed_addr, addrspace(N), attribute keywords, section, partition, align, gc"""
     ret, name, pdesc, bdesc = func
